@@ -16,24 +16,38 @@ import vf
 
 
 def judge(run, out, meta):
-    strict_only = []
-    for job in meta.get("jobs", []):
-        p = os.path.join(out, job["trace"])
-        text = open(p).read()
-        if not text.strip():
-            continue
-        st = run.trace_states
-        acc, hwm, n, r = run.validate_file(job["spec"], p, cfg="Trace_Profile_drift.cfg")
+    """strict pass over every trace file (in parallel, one TLC each); whatever it rejects is re-judged by the law alone"""
+    from concurrent.futures import ThreadPoolExecutor
+    jobs = [j for j in meta.get("jobs", []) if open(os.path.join(out, j["trace"])).read(1)]
+    st = run.trace_states
+
+    def strict(job):
+        try:
+            return run.validate_file(job["spec"], os.path.join(out, job["trace"]), cfg="Trace_Profile_drift.cfg")
+        except vf.MachineryError as ex:
+            return ex
+    with ThreadPoolExecutor(max_workers=max(1, min(4, len(jobs)))) as pool:
+        first = list(pool.map(strict, jobs))
+    strict_only, redo = [], []
+    run.trace_states = st       # the states of a rejected strict pass do not count: the law pass judges that file again
+    for job, res in zip(jobs, first):
+        if isinstance(res, vf.MachineryError):
+            raise res
+        acc, hwm, n, r = res
         if acc:
+            run.trace_states += r.get("distinct", 0)
+            text = open(os.path.join(out, job["trace"])).read()
             nh = sum(1 for x in text.splitlines() if vf.is_reset(x))
             run.histories += nh
             run.events += job.get("events", 0)
             run.trace_runs.append(dict(trace=job["trace"], spec=job["spec"], cfg="Trace_Profile_drift.cfg (Strict = TRUE: the law and the transcribed format)",
                                        events=job.get("events", 0), histories=nh, rejected_histories=0))
             vf.log("TRACE %-24s %-20s events=%d histories=%d rejected=0 (strict pass: law + transcribed format)" % (job["trace"], job["spec"], job.get("events", 0), nh))
-            continue
-        run.trace_states = st
-        line = text.splitlines()[hwm - 1] if 0 < hwm <= n else ""
+        else:
+            redo.append((job, hwm, n))
+    for job, hwm, n in redo:
+        lines = open(os.path.join(out, job["trace"])).read().splitlines()
+        line = lines[hwm - 1] if 0 < hwm <= n else ""
         vf.log("strict pass rejected %s at line %d; judging the law alone (Strict = FALSE)" % (job["trace"], hwm))
         before = len(run.violations)
         run.validate(out, dict(meta, jobs=[job]))
@@ -56,56 +70,111 @@ def judge(run, out, meta):
     run.extra["spec_drift"] = None
 
 
-def peek_selftest(run, out, meta):
-    """Binding demonstration for the kept outputs: a Peek that finds other bytes than were handed back, an Again that
-    finds another object than was handed back, and a history whose first Keep is missing must be rejected (the first
-    two exactly at the altered event)."""
-    from concurrent.futures import ThreadPoolExecutor
+def first_history(out, meta, gen, having=()):
+    """the first history of generator gen that has an event of each of the kinds `having`"""
     for job in meta.get("jobs", []):
         lines = open(os.path.join(out, job["trace"])).read().splitlines()
-        cand = [h for h in vf.split_histories(lines) if json.loads(h[0]).get("gen") == "retain"]
-        if not cand:
-            continue
-        h = cand[0]
-        variants = []
-        for tag, ev, field in (("peek_other_bytes", "Peek", "bytes"), ("again_other_object", "Again", "r"), ("removed_keep", "Keep", "h")):
-            i = next((i for i in range(1, len(h)) if json.loads(h[i]).get("ev") == ev and json.loads(h[i]).get(field)), None)
-            if i is None:
-                raise vf.MachineryError("self-test: no %s event in the first history of gen retain" % ev)
-            e = json.loads(h[i])
-            if ev == "Peek":
-                e["bytes"] = e["bytes"][:-1] + [(e["bytes"][-1] + 1) % 256]
-            elif ev == "Again":
-                f = next(k for k in sorted(e["r"]) if e["r"][k]["k"] == "i")
-                e["r"][f]["v"] = e["r"][f]["v"][:-1] + [(e["r"][f]["v"][-1] + 1) % 256]
-            hh = h[:i] + ([json.dumps(e, separators=(",", ":"))] if ev != "Keep" else []) + h[i + 1:]
-            p = os.path.join(out, "_selftest_%s.ndjson" % tag)
-            open(p, "w").write("\n".join(hh) + "\n")
-            variants.append((tag, p, i + 1 if ev != "Keep" else None))
-        st = run.trace_states
-        with ThreadPoolExecutor(max_workers=3) as pool:
-            got = list(pool.map(lambda v: run.validate_file(job["spec"], v[1]), variants))
-        run.trace_states = st
-        res = {}
-        for (tag, p, at), (acc, hwm, n, r) in zip(variants, got):
-            res[tag + "_rejected"] = (not acc) and (at is None or hwm == at)
-        run.selftests[job["spec"] + ":retain"] = res
-        if not all(res.values()):
-            raise vf.MachineryError("binding self-test failed for the kept outputs: %s" % res)
-        vf.log("SELFTEST %s %s" % (job["spec"], res))
-        return
-    raise vf.MachineryError("self-test found no history of gen retain")
+        for h in vf.split_histories(lines):
+            if json.loads(h[0]).get("gen") != gen:
+                continue
+            if all(any(k in x[:4000] for x in h[1:]) for k in having):
+                return job, h
+    raise vf.MachineryError("self-test found no history of gen %s with %s" % (gen, list(having)))
+
+
+def binding_selftest(run, out, meta):
+    """Binding demonstration for the kept outputs and for the objects: each altered history must be rejected (where a
+    line is given: exactly there).
+    retain : a Peek that finds other bytes than were handed back; an Again that finds another object than was handed
+             back; the first Keep missing.
+    rewrite: a change of the object that is not reported (the object moves on without the specification: the next W is
+             not the content the specification holds for it); a W that names another object than was written.
+    reuse  : a read ON a held object that leaves the cursor elsewhere; a missing Another."""
+    from concurrent.futures import ThreadPoolExecutor
+    variants = []   # (group, tag, job, lines, must be rejected exactly at line or None)
+
+    def first(h, pred):
+        i = next((i for i in range(1, len(h)) if pred(json.loads(h[i]))), None)
+        if i is None:
+            raise vf.MachineryError("self-test: history of gen %s has no event to alter" % json.loads(h[0]).get("gen"))
+        return i, json.loads(h[i])
+    dump = lambda e: json.dumps(e, separators=(",", ":"))
+
+    job, h = first_history(out, meta, "retain", ('"ev":"Peek"', '"ev":"Again"'))
+    i, e = first(h, lambda e: e.get("ev") == "Peek" and e.get("bytes"))
+    e["bytes"] = e["bytes"][:-1] + [(e["bytes"][-1] + 1) % 256]
+    variants.append(("retain", "peek_other_bytes", job, h[:i] + [dump(e)] + h[i + 1:], i + 1))
+    i, e = first(h, lambda e: e.get("ev") == "Again" and e.get("r"))
+    f = next(k for k in sorted(e["r"]) if e["r"][k]["k"] == "i")
+    e["r"][f]["v"] = e["r"][f]["v"][:-1] + [(e["r"][f]["v"][-1] + 1) % 256]
+    variants.append(("retain", "again_other_object", job, h[:i] + [dump(e)] + h[i + 1:], i + 1))
+    i, e = first(h, lambda e: e.get("ev") == "Keep")
+    variants.append(("retain", "removed_keep", job, h[:i] + h[i + 1:], None))
+
+    job, h = first_history(out, meta, "rewrite", ('"ev":"Mut"',))
+    i, e = first(h, lambda e: e.get("ev") == "Mut")
+    variants.append(("rewrite", "unreported_change", job, h[:i] + h[i + 1:], i + 1))      # the W that follows it
+    i, e = first(h, lambda e: e.get("ev") == "W" and e.get("o") == 1)
+    e["o"] = 2
+    variants.append(("rewrite", "write_of_another_object", job, h[:i] + [dump(e)] + h[i + 1:], i + 1))
+
+    job, h = first_history(out, meta, "reuse", ('"into":', '"ev":"Another"'))
+    i, e = first(h, lambda e: e.get("ev") in ("R", "RO") and e.get("into"))
+    if e["ev"] == "R":
+        e["cur"] += 1
+    else:
+        e["into"] = 0
+    variants.append(("reuse", "read_into_other_cursor", job, h[:i] + [dump(e)] + h[i + 1:], i + 1))
+    i, e = first(h, lambda e: e.get("ev") == "Another")
+    variants.append(("reuse", "removed_another", job, h[:i] + h[i + 1:], None))
+
+    def one(v):
+        group, tag, job, hh, at = v
+        p = os.path.join(out, "_selftest_%s_%s.ndjson" % (group, tag))
+        open(p, "w").write("\n".join(hh) + "\n")
+        return run.validate_file(job["spec"], p)
+    st = run.trace_states
+    with ThreadPoolExecutor(max_workers=4) as pool:
+        got = list(pool.map(one, variants))
+    run.trace_states = st
+    res = {}
+    for (group, tag, job, hh, at), (acc, hwm, n, r) in zip(variants, got):
+        res.setdefault(job["spec"] + ":" + group, {})[tag + "_rejected"] = (not acc) and (at is None or hwm == at)
+    for k, v in res.items():
+        run.selftests[k] = v
+        vf.log("SELFTEST %s %s" % (k, v))
+    if not all(all(v.values()) for v in res.values()):
+        raise vf.MachineryError("binding self-test failed: %s" % res)
 
 
 def body(run):
+    from concurrent.futures import ThreadPoolExecutor
     th = run.thorough()
     w = run.pick(4, 16)
-    run.mc("MC_Profile", cfg="MC_Profile_thorough.cfg" if th else "MC_Profile.cfg", workers=w)
-    run.mc("MC_Profile", cfg="MC_Profile_abstract3.cfg", workers=w)
-    run.mc("MC_Profile", cfg="MC_Profile_records_thorough.cfg" if th else "MC_Profile_records.cfg", workers=w)
-    run.mc("MC_Profile", cfg="MC_Profile_asis_attr.cfg", expect_violation="NoStuck", workers=1)
-    run.mc("MC_Profile", cfg="MC_Profile_kept_thorough.cfg" if th else "MC_Profile_kept.cfg", workers=w)
-    run.mc("MC_Profile", cfg="MC_Profile_asis_pool.cfg", expect_violation="KeptIntact", workers=1)
+
+    # the design-level runs do not depend on the driver: they run beside it (one TLC at a time)
+    def design():
+        run.mc("MC_Profile", cfg="MC_Profile_thorough.cfg" if th else "MC_Profile.cfg", workers=w)
+        run.mc("MC_Profile", cfg="MC_Profile_abstract3.cfg", workers=w)
+        run.mc("MC_Profile", cfg="MC_Profile_records_thorough.cfg" if th else "MC_Profile_records.cfg", workers=w)
+        run.mc("MC_Profile", cfg="MC_Profile_asis_attr.cfg", expect_violation="NoStuck", workers=1)
+        run.mc("MC_Profile", cfg="MC_Profile_kept_thorough.cfg" if th else "MC_Profile_kept.cfg", workers=w)
+        run.mc("MC_Profile", cfg="MC_Profile_asis_pool.cfg", expect_violation="KeptIntact", workers=1)
+        # the objects: written, changed, written again; readers called on objects that hold something
+        run.mc("MC_ProfileObj", cfg="MC_ProfileObj_thorough.cfg" if th else "MC_ProfileObj.cfg", workers=w)
+        run.mc("MC_ProfileObj", cfg="MC_ProfileObj_asis_cache.cfg", expect_violation="ReadBack", workers=1)
+        run.mc("MC_ProfileObj", cfg="MC_ProfileObj_asis_keeps.cfg", expect_violation="ReadBack", workers=1)
+
+    pool = ThreadPoolExecutor(max_workers=1)
+    mcs = pool.submit(design)
+    try:
+        traces(run)
+    finally:
+        pool.shutdown(wait=True)
+    mcs.result()          # a failure of the design runs is raised here
+
+
+def traces(run):
     out, meta = run.drive("c08")
     run.absorb(meta)
     judge(run, out, meta)
@@ -113,7 +182,7 @@ def body(run):
     run.selftest(out, meta, gen="txopt", field="cur")
     run.selftest(out, meta, gen="registry", field="n")
     if not run.violations:
-        peek_selftest(run, out, meta)
+        binding_selftest(run, out, meta)
     run.assumptions += [
         "field values are projected by reflection and encoding/binary only (attribute / custom-field maps: the written side from the generator's shape, the read side through the map's public enumeration); the cursor is length - DataInputX.Available()",
         "the carried set of an item is derived from the real writer by changing one field at a time at that item's own field values; on top of it the law demands the fields of every optional section named by the property whenever the section's presence condition (spec operators) holds, and their defaults when it does not",
